@@ -12,10 +12,28 @@ type HashingReaderWrapper struct {
 	Reader             *bufio.Reader
 	CalculateSignature bool
 	hash               hash.Hash
+	//number of bytes consumed so far, shared between copies of the wrapper (nil if position tracking is not enabled)
+	position *int64
+}
+
+// EnablePositionTracking starts counting the bytes consumed via Read and Discard
+func (t *HashingReaderWrapper) EnablePositionTracking() {
+	t.position = new(int64)
+}
+
+// Position returns the number of bytes consumed since position tracking was enabled
+func (t *HashingReaderWrapper) Position() int64 {
+	if t.position == nil {
+		return 0
+	}
+	return *t.position
 }
 
 func (t *HashingReaderWrapper) Read(bytes []byte) (int, error) {
 	byteCount, err := t.Reader.Read(bytes)
+	if t.position != nil {
+		*t.position += int64(byteCount)
+	}
 	if t.CalculateSignature == true && err == nil {
 		if byteCount == len(bytes) {
 			t.hash.Write(bytes)
@@ -50,7 +68,10 @@ func (t HashingReaderWrapper) Reset(reader io.Reader) {
 }
 
 func (t *HashingReaderWrapper) Discard(offset int64) error {
-	_, err := t.Reader.Discard(int(offset))
+	discarded, err := t.Reader.Discard(int(offset))
+	if t.position != nil {
+		*t.position += int64(discarded)
+	}
 	if err != nil {
 		return err
 	}
